@@ -27,6 +27,15 @@ Fixpoint st_of_sexp (x : sexp) : option st :=
                                           end
                   | _ => None
                   end) in
+  let flds := (fix go (l : list sexp) : option (list (str * st)) :=
+                 match l with
+                 | [] => Some []
+                 | SList [n; v] :: l' => match opt_str n, st_of_sexp v, go l' with
+                                         | Some n', Some v', Some r => Some ((n', v') :: r)
+                                         | _, _, _ => None
+                                         end
+                 | _ => None
+                 end) in
   let bin (mk : tk -> st -> st -> st) (args : list sexp) : option st :=
     match args with
     | [Atom o; a; b] => match optk_of_atom o, st_of_sexp a, st_of_sexp b with
@@ -98,6 +107,15 @@ Fixpoint st_of_sexp (x : sexp) : option st :=
         match args with f :: rs => match opt_str f, many rs with
                                    | Some f', Some rs' => Some (SCall f' rs') | _, _ => None end
                       | _ => None end
+      else if t =? "msg" then
+        match args with
+        | Atom lead :: SList (Atom "names" :: ns) :: fs =>
+            match opt_map_list opt_str ns, flds fs with
+            | Some ns', Some fs' => Some (SMsg (lead =? "true") ns' fs')
+            | _, _ => None
+            end
+        | _ => None
+        end
       else if t =? "list" then option_map SLst (many args)
       else if t =? "map" then option_map SMap (pairs args)
       else None
